@@ -1,6 +1,6 @@
 """Runs the just-built sb_patch in a scratch tree: as root or as `nobody`, with or without a pty for /dev/tty prompts,
 optionally under strace (mutation trace, fault injection, kill injection). Always under a timeout."""
-import fcntl, os, pty, re, select, shutil, stat, subprocess, tempfile, termios, time, signal
+import atexit, fcntl, os, pty, re, select, shutil, stat, subprocess, tempfile, termios, threading, time, signal
 import common
 
 BOXROOT = os.path.join(common.WORK, "box")
@@ -84,6 +84,26 @@ def _others_can_reach(path):
         p = os.path.dirname(p)
 
 
+_COPIES, _COPY_LOCK = {}, threading.Lock()
+
+
+def _reachable_copy(exe, base):
+    """One copy of the binary per process and build, in a directory everyone can enter. (Not one per run: a file which another thread's
+    freshly forked child still holds open for writing can not be executed - 'Text file busy'.)"""
+    st = os.stat(exe)
+    key = (exe, st.st_mtime_ns, st.st_size)
+    with _COPY_LOCK:
+        if key not in _COPIES:
+            d = tempfile.mkdtemp(prefix="bin%d-" % os.getpid(), dir=base)
+            os.chmod(d, 0o755)
+            dst = os.path.join(d, "sb_patch")
+            shutil.copy(exe, dst); os.chmod(dst, 0o755)
+            time.sleep(0.2)      # any child forked while the copy was open has long since exec'ed or closed it
+            _COPIES[key] = dst
+            atexit.register(shutil.rmtree, d, True)
+        return _COPIES[key]
+
+
 def run(cut, tree, argv, stdin=b"", tty=None, uid=0, env=None, timeout=8, strace=None, sanitize=False, keep=False, exe=None, root_owned=()):
     """tree: Tree; argv: list of bytes (without argv[0]); tty: None (no controlling terminal) or list of answer byte strings.
     strace: None | {'trace': True} | {'inject': 'write:error=ENOSPC:when=3'}"""
@@ -119,7 +139,7 @@ def run(cut, tree, argv, stdin=b"", tty=None, uid=0, env=None, timeout=8, strace
         e.update(env)
     exe = exe or os.path.join(cut, "sb_patch")
     if uid != 0 and not _others_can_reach(os.path.dirname(exe)):
-        shutil.copy(exe, os.path.join(top, "sb_patch")); exe = os.path.join(top, "sb_patch"); os.chmod(exe, 0o755)
+        exe = _reachable_copy(exe, base)
     cmd = [exe.encode()] + list(argv)
     logf = None
     if strace:
@@ -134,14 +154,18 @@ def run(cut, tree, argv, stdin=b"", tty=None, uid=0, env=None, timeout=8, strace
     r.prompts = b""
     t0 = time.time()
     if tty is None:
-        p = subprocess.Popen(cmd, cwd=root, env=e, stdin=subprocess.PIPE, stdout=subprocess.PIPE, stderr=subprocess.PIPE, start_new_session=True)
-        try:
-            out, err = p.communicate(stdin, timeout=timeout)
-            r.timeout = False
-        except subprocess.TimeoutExpired:
-            os.killpg(p.pid, signal.SIGKILL)
-            out, err = p.communicate()
-            r.timeout = True
+        for attempt in range(4):
+            p = subprocess.Popen(cmd, cwd=root, env=e, stdin=subprocess.PIPE, stdout=subprocess.PIPE, stderr=subprocess.PIPE, start_new_session=True)
+            try:
+                out, err = p.communicate(stdin, timeout=timeout)
+                r.timeout = False
+            except subprocess.TimeoutExpired:
+                os.killpg(p.pid, signal.SIGKILL)
+                out, err = p.communicate()
+                r.timeout = True
+            if not (p.returncode == 126 and b"Text file busy" in err):     # the program never ran: not a result
+                break
+            time.sleep(0.1)
         r.exit, r.stdout, r.stderr = p.returncode, out, err
     else:
         master, slave = pty.openpty()
